@@ -490,6 +490,8 @@ def build_export(b, MG, T, G, np_, shape):
         mv = e.get('multi', 'absent')
         if mv == 'noeos': dat.multi = dict(num_components=1, num_equations=2, num_phases=2, num_secondary_parameters=6, num_inc=None)
         elif mv == 'blank': dat.multi = dict(num_components=1, num_equations=2, num_phases=2, num_secondary_parameters=6, eos='')
+        elif mv == 'none': dat.multi = dict(num_components=1, num_equations=2, num_phases=2, num_secondary_parameters=6, eos=None)
+        elif mv == 'spaces': dat.multi = dict(num_components=1, num_equations=2, num_phases=2, num_secondary_parameters=6, eos='    ')
     dat.diffusion = [[-1.e-6, -1.e-6], [-1.e-6, -1.e-6]]      # (EWTD needs a constant diffusivity)
     return dat, geo
 
